@@ -160,10 +160,10 @@ Qed.
 Lemma rel_remove ds st ss a n t' m' : Rel ds st ss ->
   l_retrieve a (flat (s_tbl st)) = Some n -> flat t' = rm a (flat (s_tbl st)) -> Inv t' ->
   guards_agree (flat (s_tbl st)) m' (s_mem st) ->
-  Rel ds (mkD t' (s_tc st) m') (release ss (Some a)).
+  Rel ds (with_mem (with_tbl st t') m') (release ss (Some a)).
 Proof.
   intros [I SO Tc Fd Ln ND] E R I' Ag. pose proof I as (_ & _ & NDn).
-  constructor; cbn [s_tbl s_tc s_mem release ss_blks ss_tc].
+  constructor; cbn [s_tbl s_tc s_mem with_mem with_tbl release ss_blks ss_tc].
   - assumption.
   - unfold slots_ok in *. rewrite Forall_forall in *. intros x Hx. apply SO. rewrite R in Hx. eapply rm_incl. eassumption.
   - assumption.
@@ -204,34 +204,44 @@ Lemma dealloc_shape ds jump st al a n t' : Inv (s_tbl st) -> l_retrieve a (flat 
   t_remove a (s_tbl st) = (Some n, t') ->
   let c := check ds st n al in
   d_dealloc ds jump st al (Some a) =
-    (mkD t' (s_tc st) (s_mem st), c, match c with CNone => [(a, n_size n)] | _ => if jump then [] else [(a, n_size n)] end).
+    (with_tbl st t', c, match c with CNone => [(a, n_size n)] | _ => if jump then [] else [(a, n_size n)] end).
 Proof.
-  intros I E TR c. unfold d_dealloc. rewrite TR. destruct st as [t tc m]. cbn [s_tbl s_tc s_mem] in *.
-  rewrite (check_indep ds t' t). fold c. destruct c, jump; reflexivity.
+  intros I E TR c. unfold d_dealloc. rewrite TR. rewrite check_with_tbl. fold c. destruct c, jump; reflexivity.
 Qed.
 
 Lemma poison_ok_nil a sz : poison_ok a sz [] = true. Proof. reflexivity. Qed.
 Lemma poison_ok_one a sz : poison_ok a sz [(a, Some (repeat poison (N.to_nat sz)))] = true.
 Proof. unfold poison_ok. cbn. rewrite bytes_eqb_refl, orb_true_r. reflexivity. Qed.
 
+Lemma total_rel ds st ss : Rel ds st ss -> (total_of st =? N.of_nat (length (ss_blks ss))) = true.
+Proof. intros RL. apply N.eqb_eq. unfold total_of. rewrite total_all. f_equal. symmetry. apply (r_len _ _ _ RL). Qed.
+Lemma with_mem_id st : with_mem st (s_mem st) = st.
+Proof. destruct st; reflexivity. Qed.
+Lemma invalidate_with_mem st p : d_invalidate st p = with_mem st (s_mem (d_invalidate st p)).
+Proof.
+  unfold d_invalidate. destruct p as [a|]; [|symmetry; apply with_mem_id].
+  destruct (t_retrieve a (s_tbl st)); [reflexivity|symmetry; apply with_mem_id].
+Qed.
+
 Lemma free_step ds jump st ss e al p st2 x : Rel ds st ss ->
   step ds jump st (OpFree e al p) = (st2, Some x) ->
   Rel ds st2 (release ss p) /\
-  check_release ss (family ds e al) p (negb (entry_eqb e EString)) x (release ss p) = true.
+  check_release ss (family ds e al) p (poisons e) x (release ss p) = true.
 Proof.
   intros RL Hs. pose proof RL as [I SO Tc Fd Ln ND].
   set (al' := det_alloc ds e al) in *.
-  set (st1 := match e with EString => st | _ => d_invalidate st p end).
+  set (st1 := if poisons e then d_invalidate st p else st).
   assert (Et1 : s_tbl st1 = s_tbl st /\ s_tc st1 = s_tc st).
-  { unfold st1. destruct e; try apply invalidate_tbl. auto. }
+  { unfold st1. destruct (poisons e); [apply invalidate_tbl|auto]. }
   destruct Et1 as [Et1 Ec1].
   assert (Ag1 : guards_agree (flat (s_tbl st)) (s_mem st1) (s_mem st)).
-  { unfold st1. destruct e; try (apply invalidate_agree; assumption). apply guards_agree_refl. }
+  { unfold st1. destruct (poisons e); [apply invalidate_agree; assumption|apply guards_agree_refl]. }
   assert (RL1 : Rel ds st1 ss).
-  { assert (st1 = with_mem st (s_mem st1)) as -> by (destruct st1; cbn in *; subst; reflexivity). apply rel_mem; assumption. }
+  { assert (st1 = with_mem st (s_mem st1)) as -> by (unfold st1; destruct (poisons e); [apply invalidate_with_mem|symmetry; apply with_mem_id]).
+    apply rel_mem; assumption. }
   assert (HS : step ds jump st (OpFree e al p) =
                let '(s2, c, fr) := d_dealloc ds jump st1 al' p in
-               (s2, Some (mkO (calls_of c) (cat_code c) (seen s2 (entry_eqb e EString) fr) (total_of s2) false))) by reflexivity.
+               (s2, Some (mkO (calls_of c) (cat_code c) (seen s2 (negb (poisons e)) fr) (total_of s2) false))) by reflexivity.
   rewrite HS in Hs. clear HS.
   unfold check_release. rewrite family_fam. fold al'. rewrite <- (lookup_expect ds st ss al' p RL).
   destruct p as [a|].
@@ -243,31 +253,33 @@ Proof.
       destruct (t_remove a (s_tbl st)) as [r t'] eqn:TR. cbn [fst snd] in F, R, I', Hout. subst r.
       assert (I1 : Inv (s_tbl st1)) by (rewrite Et1; assumption).
       rewrite (dealloc_shape ds jump st1 al' a n t') in Hs by (rewrite ?Et1; assumption).
-      cbv zeta in Hs. rewrite Ec1 in Hs.
+      cbv zeta in Hs.
       assert (Ck : check ds st1 n al' = lookup_cat ds st al' (Some a)).
       { unfold lookup_cat. rewrite E. unfold check. rewrite Ec1. rewrite (valid_guard_ext (s_mem st1) (s_mem st)); [reflexivity|].
         intros i Hi. apply Ag1; assumption. }
       rewrite Ck in Hs. set (c := lookup_cat ds st al' (Some a)) in *.
-      assert (RL2 : Rel ds (mkD t' (s_tc st) (s_mem st1)) (release ss (Some a))) by (eapply rel_remove; eassumption).
+      assert (Es2 : with_tbl st1 t' = with_mem (with_tbl st t') (s_mem st1)).
+      { assert (Es1 : st1 = with_mem st (s_mem st1))
+          by (unfold st1; destruct (poisons e); [apply invalidate_with_mem|symmetry; apply with_mem_id]).
+        rewrite Es1 at 1. reflexivity. }
+      assert (RL2 : Rel ds (with_tbl st1 t') (release ss (Some a))) by (rewrite Es2; eapply rel_remove; eassumption).
       inversion Hs; subst st2 x. clear Hs. split; [assumption|].
       cbn [o_cat o_calls o_total o_freed]. rewrite !N.eqb_refl. cbn [andb].
-      assert (Tot : total_of (mkD t' (s_tc st) (s_mem st1)) =? N.of_nat (length (ss_blks (release ss (Some a)))) = true).
-      { apply N.eqb_eq. unfold total_of. cbn [s_tbl]. rewrite total_all. f_equal. symmetry. apply (r_len _ _ _ RL2). }
-      rewrite Tot. cbn [andb].
+      rewrite (total_rel _ _ _ RL2). cbn [andb].
       assert (Sz : size_at ss (Some a) = Some (n_size n)).
       { unfold size_at. rewrite Fd, E. reflexivity. }
-      rewrite Sz. destruct (entry_eqb e EString) eqn:Ee; cbn [negb]; [reflexivity|].
+      rewrite Sz. destruct (poisons e) eqn:Ee; cbn [negb]; [|reflexivity].
       (* poisoning entry points *)
       assert (M1 : s_mem st1 = mwrite (s_mem st) a (repeat poison (N.to_nat (n_size n)))).
-      { unfold st1. destruct e; try discriminate Ee; unfold d_invalidate; rewrite (retrieve_flat _ _ I), E; reflexivity. }
+      { unfold st1. unfold d_invalidate; rewrite (retrieve_flat _ _ I), E; reflexivity. }
       assert (MR : mrange (s_mem st1) a (N.to_nat (n_size n)) = repeat poison (N.to_nat (n_size n))).
       { rewrite M1. pose proof (mrange_written (s_mem st) a (repeat poison (N.to_nat (n_size n)))) as H. rewrite repeat_length in H. exact H. }
       destruct c; [|destruct jump|destruct jump|destruct jump];
-        unfold seen; cbn [map fst snd s_mem]; rewrite ?MR; first [apply poison_ok_nil | apply poison_ok_one].
+        unfold seen; cbn [map fst snd s_mem with_tbl]; rewrite ?MR; first [apply poison_ok_nil | apply poison_ok_one].
     + (* not outstanding *)
       destruct (remove_cases a (s_tbl st) I) as [(E0 & Hn & F)|(n' & E' & _)]; [|congruence].
       assert (Ei : st1 = st).
-      { unfold st1. destruct e; try reflexivity; unfold d_invalidate; rewrite (retrieve_flat _ _ I), E; reflexivity. }
+      { unfold st1. destruct (poisons e); try reflexivity; unfold d_invalidate; rewrite (retrieve_flat _ _ I), E; reflexivity. }
       rewrite Ei in Hs. unfold d_dealloc in Hs.
       destruct (t_remove a (s_tbl st)) as [r t'] eqn:TR. cbn [fst] in F. subst r.
       inversion Hs; subst st2 x. clear Hs.
@@ -277,7 +289,7 @@ Proof.
       { apply N.eqb_eq. unfold total_of. rewrite total_all, Ln. reflexivity. }
       rewrite Tot. cbn [andb]. unfold size_at. rewrite Fd, E. reflexivity.
   - (* NULL *)
-    assert (Ei : st1 = st) by (unfold st1; destruct e; reflexivity).
+    assert (Ei : st1 = st) by (unfold st1; destruct (poisons e); reflexivity).
     rewrite Ei in Hs. cbn in Hs. inversion Hs; subst st2 x. clear Hs. split; [assumption|].
     cbn [release o_cat o_calls o_total o_freed lookup_cat cat_code calls_of]. rewrite !N.eqb_refl. cbn [andb].
     assert (Tot : total_of st =? N.of_nat (length (ss_blks ss)) = true).
@@ -286,8 +298,6 @@ Proof.
 Qed.
 
 (* ------------------------------------------------------------------ realloc *)
-Lemma total_rel ds st ss : Rel ds st ss -> (total_of st =? N.of_nat (length (ss_blks ss))) = true.
-Proof. intros RL. apply N.eqb_eq. unfold total_of. rewrite total_all. f_equal. symmetry. apply (r_len _ _ _ RL). Qed.
 
 Lemma realloc_step ds jump st ss al p na size st2 x : Rel ds st ss ->
   addr_ok na size = true -> live na (ss_blks (release ss p)) = false ->
@@ -311,13 +321,15 @@ Proof.
     + destruct (remove_cases a (s_tbl st) I) as [(E0 & _)|(n' & E' & Ha & Hin & F & R & I' & Hout)]; [congruence|].
       rewrite E in E'. inversion E'; subst n'. clear E'.
       unfold d_realloc in Hs. destruct (t_remove a (s_tbl st)) as [r t'] eqn:TR. cbn [fst snd] in F, R, I', Hout. subst r.
-      set (st' := mkD t' (s_tc st) (s_mem st)) in *.
+      set (st' := with_tbl st t') in *.
       assert (Ck : check ds st' n al = lookup_cat ds st al (Some a)).
-      { unfold lookup_cat. rewrite E. destruct st as [t tc m]. apply check_indep. }
+      { unfold lookup_cat. rewrite E. apply check_with_tbl. }
       rewrite Ck in Hs.
       assert (Nn : lookup_cat ds st al (Some a) <> CNonAlloc).
       { rewrite <- Ck. apply (check_exact ds st' n al). }
-      assert (RL1 : Rel ds st' ss1) by (eapply rel_remove; try eassumption; apply guards_agree_refl).
+      assert (RL1 : Rel ds st' ss1).
+      { replace st' with (with_mem (with_tbl st t') (s_mem st)) by (unfold st'; apply (with_mem_id (with_tbl st t'))).
+        eapply rel_remove; try eassumption. apply guards_agree_refl. }
       assert (RLs : Rel ds (d_store st' na size al) (mkSS (mkB na size (fam_of ds al) pattern :: ss_blks ss1) (ss_tc ss1)))
         by (apply rel_alloc; assumption).
       set (c := lookup_cat ds st al (Some a)) in *.
@@ -339,12 +351,17 @@ Proof.
 Qed.
 
 (* ------------------------------------------------------------------ the theorem *)
-Lemma rel_tc ds st ss b : Rel ds st ss -> Rel ds (mkD (s_tbl st) b (s_mem st)) (mkSS (ss_blks ss) b).
-Proof. intros [I SO Tc Fd Ln ND]. constructor; cbn [s_tbl s_tc s_mem ss_blks ss_tc]; auto. Qed.
+Lemma rel_tc ds st ss b : Rel ds st ss -> Rel ds (with_tc st b) (mkSS (ss_blks ss) b).
+Proof. intros [I SO Tc Fd Ln ND]. constructor; cbn [s_tbl s_tc s_mem with_tc ss_blks ss_tc]; auto. Qed.
+(* the period and the stage of the detector are not part of the relation: the property's bookkeeping has neither *)
+Lemma rel_period ds st ss p : Rel ds st ss -> Rel ds (with_period st p) ss.
+Proof. intros [I SO Tc Fd Ln ND]. constructor; cbn [s_tbl s_tc s_mem with_period]; auto. Qed.
+Lemma rel_stage ds st ss g : Rel ds st ss -> Rel ds (with_stage st g) ss.
+Proof. intros [I SO Tc Fd Ln ND]. constructor; cbn [s_tbl s_tc s_mem with_stage]; auto. Qed.
 
 Lemma free_some ds jump st e al p : exists st2 x, step ds jump st (OpFree e al p) = (st2, Some x).
 Proof.
-  unfold step. destruct (d_dealloc ds jump match e with EString => st | _ => d_invalidate st p end (det_alloc ds e al) p) as [[s2 c] fr].
+  unfold step. destruct (d_dealloc ds jump (if poisons e then d_invalidate st p else st) (det_alloc ds e al) p) as [[s2 c] fr].
   eexists. eexists. reflexivity.
 Qed.
 Lemma realloc_some ds jump st al p na size : exists st2 x, step ds jump st (OpRealloc al p na size) = (st2, Some x).
@@ -355,7 +372,7 @@ Lemma run_spec ds jump : forall ops st ss, Rel ds st ss -> valid_from ds jump ss
 Proof.
   induction ops as [|o r IH]; intros st ss RL V; [reflexivity|].
   cbn [valid_from] in V. apply andb_true_iff in V. destruct V as [Vo Vr].
-  destruct o as [e al a size|e al p|al p na size|w bs|b].
+  destruct o as [e al a size|e al p|al p na size|w bs|b|k|up|ts].
   - (* alloc *)
     cbn [op_ok] in Vo. rewrite !andb_true_iff, negb_true_iff in Vo. destruct Vo as [[_ Hok] Hl].
     cbn [run_from step spec_from]. apply IH; [|exact Vr]. rewrite family_fam. apply rel_alloc; assumption.
@@ -373,6 +390,12 @@ Proof.
     cbn [run_from step spec_from]. apply IH; [|exact Vr]. apply (rel_write ds st ss w bs RL).
   - (* type checking switch *)
     cbn [run_from step spec_from]. apply IH; [|exact Vr]. apply rel_tc. assumption.
+  - (* enable / disable / startChecking / stopChecking *)
+    cbn [run_from step spec_from]. apply IH; [|exact Vr]. apply rel_period. assumption.
+  - (* allocation stage *)
+    cbn [run_from step spec_from]. apply IH; [|exact Vr]. apply rel_stage. assumption.
+  - (* which overloads are installed *)
+    cbn [run_from step spec_from]. apply IH; [|exact Vr]. assumption.
 Qed.
 
 Definition C06_run_meets_spec_stmt : Prop := forall s, valid s = true -> spec s (run s) = true.
